@@ -439,6 +439,16 @@ def corpus():
   add('C20', 'sweep whose marker moves backwards', 'bad', 'R1/dedup',
       multi(edit(ut, 'expand_time_windows', lambda n: isinstance(n, ast.For), lambda s, n: good_sweep.replace('window.last_day if covered_until is None else max(covered_until, window.last_day)', 'window.last_day')),
             edit(ut, 'expand_time_windows', lambda n: isinstance(n, ast.Return), lambda s, n: 'return days_exclude')))
+  merge_sweep = ("one_day = pd.Timedelta(days=1)\n  ordered = sorted(periods, key=lambda w: w.first_day)\n  merged = [(ordered[0].first_day, ordered[0].last_day)] if ordered else []\n"
+                 "  for window in ordered[1:]:\n    first_day, last_day = merged[-1]\n    if window.first_day <= last_day + one_day:\n"
+                 "      merged[-1] = (first_day, max(last_day, window.last_day))\n    else:\n      merged.append((window.first_day, window.last_day))\n"
+                 "  for first_day, last_day in merged:\n    days_exclude += pd.date_range(first_day, last_day, freq='D').to_list()")
+  add('C20', 'merge sweep extending the last block with max(): must not be a violation', 'nonviolation', None,
+      multi(edit(ut, 'expand_time_windows', lambda n: isinstance(n, ast.For), lambda s, n: merge_sweep),
+            edit(ut, 'expand_time_windows', lambda n: isinstance(n, ast.Return), lambda s, n: 'return days_exclude')))
+  add('C20', 'merge sweep whose block end moves backwards', 'bad', 'R1/dedup',
+      multi(edit(ut, 'expand_time_windows', lambda n: isinstance(n, ast.For), lambda s, n: merge_sweep.replace('max(last_day, window.last_day)', 'window.last_day')),
+            edit(ut, 'expand_time_windows', lambda n: isinstance(n, ast.Return), lambda s, n: 'return days_exclude')))
   add('C20', 'benign: accumulate with extend', 'benign', None, edit(ut, 'expand_time_windows', lambda n: isinstance(n, ast.AugAssign), lambda s, n: "days_exclude.extend(pd.date_range(\n        window.first_day, window.last_day, freq='D').to_list())"))
   add('C11', 'benign: loops over ct and tx swapped', 'benign', None,
       multi(edit(mm, MMQ + 'count_max_designs', lambda n: isinstance(n, ast.For) and norm(n.target) == 'i_ct', lambda s, n: s.replace('for i_ct in range(1 + n_ct):', 'for i_ct in range(n_ct + 1):', 1))))
